@@ -476,8 +476,31 @@ func (ex *Exec) enterLoop(fr *Frame, lp *loopRec, reach string, st *State) (stri
 	// must not be used when the loop modifies the map's domain
 	for _, ck := range cells {
 		if t, isHidden := ex.hiddenCells[ck]; isHidden && t == nil {
+			// the map this iterator ranges over
+			var iterated *iterState
+			for _, v := range fr.regs {
+				if v.It != nil && v.It.posCell == ck {
+					iterated = v.It
+				}
+			}
 			for c := range compsWritten {
-				if strings.HasPrefix(c, "Mdom|") {
+				if !strings.HasPrefix(c, "Mdom|") {
+					continue
+				}
+				// a different map type cannot be the iterated map; the same type is
+				// harmless when every written map is provably another object
+				if iterated != nil && c != compMdom(iterated.coll.T) {
+					continue
+				}
+				other := iterated != nil && !fullHavoc[c] && len(pointRefs[c]) > 0
+				if other {
+					for _, r := range pointRefs[c] {
+						if !ex.quickProve(mkImp(reach, mkNot(mkEq(r, iterated.coll.term())))) {
+							other = false
+						}
+					}
+				}
+				if !other {
 					ex.mapIterModified[ck] = true
 				}
 			}
